@@ -4,6 +4,7 @@ import (
 	"context"
 	"errors"
 	"fmt"
+	"strings"
 	"sync"
 	"testing"
 	"testing/synctest"
@@ -23,12 +24,15 @@ type C04OCase struct {
 	Ops   []UOp `json:"ops"`
 	// ParkIn: which callback parks the callback goroutine
 	ParkIn string `json:"park_in"` // new | registered
+	// After: valid updates installed after the callback goroutine was released and has drained the queue
+	After int `json:"after,omitempty"`
 }
 
 const cbQueueCap = 64
 
 func genC04O(t *rapid.T) C04OCase {
 	c := C04OCase{Extra: rapid.IntRange(2, 8).Draw(t, "extra"), ParkIn: rapid.SampledFrom([]string{"new", "registered"}).Draw(t, "park_in")}
+	c.After = rapid.IntRange(0, 3).Draw(t, "after")
 	n := rapid.IntRange(1, 8).Draw(t, "ops")
 	for i := 0; i < n; i++ {
 		op := UOp{Src: 0, N: 1000 + i, Block: rapid.IntRange(0, 3).Draw(t, "block") != 0}
@@ -44,19 +48,22 @@ func genC04O(t *rapid.T) C04OCase {
 	return c
 }
 
-func runC04O(c C04OCase) (verdict vrt.Verdict) {
-	if c.Extra < 0 || c.Extra > 64 || len(c.Ops) == 0 {
+// runC04O reports only the failures that bear on prop (the first argument of
+// fail names the properties a failed expectation belongs to).
+func runC04O(prop string, c C04OCase) (verdict vrt.Verdict) {
+	if c.Extra < 0 || c.Extra > 64 || len(c.Ops) == 0 || c.After < 0 || c.After > 8 {
 		return vrt.Discardf("bad case")
 	}
 	var msg string
-	fail := func(format string, a ...any) {
-		if msg == "" {
+	fail := func(tags, format string, a ...any) {
+		if msg == "" && strings.Contains(tags, prop) {
 			msg = fmt.Sprintf(format, a...)
 		}
 	}
 	defer func() {
 		if p := recover(); p != nil {
-			verdict = vrt.KeyedViolationf("panic", "panic / synctest failure (a blocking report that is never answered leaves the bubble deadlocked): %v", p)
+			// a monitor or report that is stuck concerns every property that shares these histories
+			verdict = vrt.KeyedViolationf("panic", "panic / synctest failure (a blocking report that is never answered, or a monitor that waits for room in the callback queue, leaves the bubble deadlocked): %v", p)
 		}
 	}()
 	rejectedBlocking, installedFull := 0, 0
@@ -71,6 +78,16 @@ func runC04O(c C04OCase) (verdict vrt.Verdict) {
 		uVerifyMu.Unlock()
 		var mu sync.Mutex
 		parked := false
+		var seenNew, seenReg []int // N of the new config of each OnNewConfig / registered-callback call, in call order
+		var pairBad string
+		record := func(which *[]int, o, n *UCfg) {
+			mu.Lock()
+			*which = append(*which, n.N)
+			if o != nil && o.N >= n.N && pairBad == "" {
+				pairBad = fmt.Sprintf("a callback was called with old N=%d, new N=%d", o.N, n.N)
+			}
+			mu.Unlock()
+		}
 		park := func() {
 			mu.Lock()
 			first := !parked
@@ -81,7 +98,8 @@ func runC04O(c C04OCase) (verdict vrt.Verdict) {
 			}
 		}
 		params := dials.Params[UCfg]{
-			OnNewConfig: func(context.Context, *UCfg, *UCfg) {
+			OnNewConfig: func(_ context.Context, o, n *UCfg) {
+				record(&seenNew, o, n)
 				if c.ParkIn == "new" {
 					park()
 				}
@@ -91,13 +109,13 @@ func runC04O(c C04OCase) (verdict vrt.Verdict) {
 		w := &fake.Watcher{}
 		d, err := params.Config(ctx, &UCfg{N: 0, I: ULabel{Text: "default"}}, w)
 		if err != nil {
-			fail("Config failed: %v", err)
+			fail("C04,C05,C06,C07,C08", "Config failed: %v", err)
 			return
 		}
 		if c.ParkIn == "registered" {
 			_, tok := d.ViewVersion()
-			if unreg := d.RegisterCallback(ctx, tok, func(context.Context, *UCfg, *UCfg) { park() }); unreg == nil {
-				fail("RegisterCallback failed")
+			if unreg := d.RegisterCallback(ctx, tok, func(_ context.Context, o, n *UCfg) { record(&seenReg, o, n); park() }); unreg == nil {
+				fail("C04,C05,C06,C07,C08", "RegisterCallback failed")
 				return
 			}
 			synctest.Wait()
@@ -107,11 +125,11 @@ func runC04O(c C04OCase) (verdict vrt.Verdict) {
 		for i := 0; i < 1+cbQueueCap+c.Extra; i++ {
 			op := UOp{N: i + 1}
 			if err := w.Args.BlockingReportNewValue(ctx, uLayer(pt, &op)); err != nil {
-				fail("fill %d: blocking report of a valid value returned %v", i, err)
+				fail("C04,C05,C07,C08", "fill %d: blocking report of a valid value returned %v", i, err)
 				return
 			}
 			if got := d.View().N; got != i+1 {
-				fail("fill %d: a blocking report returned nil but the view holds N=%d, want %d (a callback that blocks must not stop new configs from being installed and viewed)", i, got, i+1)
+				fail("C04,C05,C07,C08", "fill %d: a blocking report returned nil but the view holds N=%d, want %d (a callback that blocks must not stop new configs from being installed and viewed)", i, got, i+1)
 				return
 			}
 		}
@@ -120,7 +138,7 @@ func runC04O(c C04OCase) (verdict vrt.Verdict) {
 		isParked := parked
 		mu.Unlock()
 		if !isParked {
-			fail("harness: the callback goroutine never reached the parking callback")
+			fail("C04,C05,C06,C07,C08", "harness: the callback goroutine never reached the parking callback")
 			return
 		}
 		curView, curTok := d.ViewVersion()
@@ -141,34 +159,34 @@ func runC04O(c C04OCase) (verdict vrt.Verdict) {
 			switch {
 			case op.SetI || invalid:
 				if v != curView || serialOf(tok) != curSerial {
-					fail("%s: an update that must be rejected changed the view or the serial (%d -> %d)", step, curSerial, serialOf(tok))
+					fail("C04,C05,C07,C08", "%s: an update that must be rejected changed the view or the serial (%d -> %d)", step, curSerial, serialOf(tok))
 					return
 				}
 				if op.Block {
 					rejectedBlocking++
 					if rerr == nil {
-						fail("%s: the blocking report of a rejected update returned nil", step)
+						fail("C04,C07,C08", "%s: the blocking report of a rejected update returned nil", step)
 						return
 					}
 					if invalid && !op.SetI && !errors.Is(rerr, ErrInvalid) {
-						fail("%s: the blocking report of an update that does not verify returned %v, want the verifier's error (also when the callback queue has overflowed)", step, rerr)
+						fail("C04,C07", "%s: the blocking report of an update that does not verify returned %v, want the verifier's error (also when the callback queue has overflowed)", step, rerr)
 						return
 					}
 					if op.SetI && (errors.Is(rerr, ErrInvalid) || errors.Is(rerr, context.Canceled) || errors.Is(rerr, context.DeadlineExceeded)) {
-						fail("%s: the blocking report of an update that cannot be stacked returned %v, want the stacking error", step, rerr)
+						fail("C04,C07", "%s: the blocking report of an update that cannot be stacked returned %v, want the stacking error", step, rerr)
 						return
 					}
 				} else if rerr != nil {
-					fail("%s: ReportNewValue returned %v", step, rerr)
+					fail("C04,C08", "%s: ReportNewValue returned %v", step, rerr)
 					return
 				}
 			default:
 				if rerr != nil {
-					fail("%s: report of a valid value returned %v", step, rerr)
+					fail("C04,C05,C07,C08", "%s: report of a valid value returned %v", step, rerr)
 					return
 				}
 				if serialOf(tok) != curSerial+1 || v == curView || v.N != op.N {
-					fail("%s: a valid update was not installed (serial %d -> %d, N=%d want %d)", step, curSerial, serialOf(tok), v.N, op.N)
+					fail("C04,C05,C07,C08", "%s: a valid update was not installed (serial %d -> %d, N=%d want %d)", step, curSerial, serialOf(tok), v.N, op.N)
 					return
 				}
 				installedFull++
@@ -177,6 +195,43 @@ func runC04O(c C04OCase) (verdict vrt.Verdict) {
 		}
 		release()
 		synctest.Wait()
+		// the callback goroutine has drained what fitted the queue; further updates must be announced after, never before, those
+		for i := 0; i < c.After; i++ {
+			op := UOp{N: 2000 + i}
+			if err := w.Args.BlockingReportNewValue(ctx, uLayer(pt, &op)); err != nil {
+				fail("C04,C05,C07,C08", "after release, update %d: blocking report of a valid value returned %v", i, err)
+				return
+			}
+			synctest.Wait()
+			if got := d.View().N; got != op.N {
+				fail("C04,C05,C07,C08", "after release, update %d: the view holds N=%d, want %d", i, got, op.N)
+				return
+			}
+		}
+		mu.Lock()
+		defer mu.Unlock()
+		for name, seen := range map[string][]int{"OnNewConfig": seenNew, "the registered callback": seenReg} {
+			for i := 1; i < len(seen); i++ {
+				if seen[i] <= seen[i-1] {
+					fail("C06", "%s received version N=%d after it had already received N=%d (dropping events on overflow is documented; delivering them out of installation order is not); sequence tail %v", name, seen[i], seen[i-1], seen[max(0, i-3):min(len(seen), i+2)])
+					return
+				}
+			}
+		}
+		if pairBad != "" {
+			fail("C06", "%s", pairBad)
+			return
+		}
+		if c.After > 0 {
+			if len(seenNew) == 0 || seenNew[len(seenNew)-1] != 2000+c.After-1 {
+				fail("C06,C04", "with the queue drained, the last update (N=%d) was not announced to OnNewConfig; it saw %d calls, last %v", 2000+c.After-1, len(seenNew), seenNew[max(0, len(seenNew)-2):])
+				return
+			}
+			if c.ParkIn == "registered" && (len(seenReg) == 0 || seenReg[len(seenReg)-1] != 2000+c.After-1) {
+				fail("C06", "with the queue drained, the last update (N=%d) was not announced to the registered callback", 2000+c.After-1)
+				return
+			}
+		}
 	})
 	if msg != "" {
 		return vrt.KeyedViolationf("overflow", "%s", msg)
@@ -192,7 +247,7 @@ func TestC04Overflow(t *testing.T) {
 			"oracle: every update is still installed or rejected exactly as without overflow - rejected ones leave view and serial unchanged and their blocking report returns the verifier's / stacking error (only the OnWatchedError call may be dropped), valid ones are installed with serial+1 and visible at once; a report that is never answered deadlocks the bubble; " +
 			"non-trivial = at least one rejected blocking report while the queue is full; distinct = distinct case JSON",
 		Assumptions: []string{"the queue capacity is 64 (dials.go); a larger capacity would only make the case a non-overflow one"},
-		Gen:         genC04O, Run: runC04O,
+		Gen:         genC04O, Run: func(c C04OCase) vrt.Verdict { return runC04O("C04", c) },
 	})
 }
 
@@ -204,6 +259,30 @@ func TestC08Overflow(t *testing.T) {
 			"oracle (C08's clauses): a callback that blocks does not stop new configs from being installed and viewed, no report deadlocks (synctest deadlock detection), nothing panics, and after release and cancel no goroutine remains; " +
 			"non-trivial = at least one rejected blocking report while the queue is full; distinct = distinct case JSON",
 		Assumptions: []string{"see C04/overflow"},
-		Gen:         genC04O, Run: runC04O,
+		Gen:         genC04O, Run: func(c C04OCase) vrt.Verdict { return runC04O("C08", c) },
 	})
+}
+
+func overflowProp(t *testing.T, id, oracle string) {
+	curT = t
+	vrt.Check(t, vrt.Prop[C04OCase]{
+		ID: id, Name: "overflow",
+		Rule: "the histories of C04/overflow (callback goroutine parked in OnNewConfig or a registered callback, 1+64+extra valid updates overflow the 64-slot callback queue, 1..8 further valid / invalid / unstackable updates (blocking or not) while it is full, release, 0..3 more valid updates) inside a synctest bubble; " +
+			"oracle (" + id + "'s clauses): " + oracle + "; " +
+			"non-trivial = at least one rejected blocking report while the queue is full; distinct = distinct case JSON",
+		Assumptions: []string{"see C04/overflow"},
+		Gen:         genC04O, Run: func(c C04OCase) vrt.Verdict { return runC04O(id, c) },
+	})
+}
+
+func TestC05Overflow(t *testing.T) {
+	overflowProp(t, "C05", "every valid report is stacked and installed with serial+1 and is what View returns at once, also when the callback queue is full (a monitor that waits for room in the queue stops stacking: synctest deadlock detection); rejected ones leave view and serial unchanged")
+}
+
+func TestC06Overflow(t *testing.T) {
+	overflowProp(t, "C06", "the sequence of new configs handed to OnNewConfig and to the registered callback is strictly increasing in installation order (events may be dropped on overflow, never reordered), old is older than new in every call, and once the queue has drained the latest update is announced")
+}
+
+func TestC07Overflow(t *testing.T) {
+	overflowProp(t, "C07", "every blocking report is answered while the queue is full: nil with the value in the view, or the verifier's / stacking error with the view unchanged (an unanswered report deadlocks the bubble)")
 }
